@@ -37,10 +37,11 @@ CONSTANTS
 FlagIdx(f) ==
   CASE f = "D_CAS_GHOST" -> 1 [] f = "D_HASH_ZERO" -> 2 [] f = "D_LAZY_HASH" -> 3
     [] f = "D_SYS_WILDCARD" -> 4 [] f = "D_PUBLISH_SYS" -> 5 [] f = "D_IMPORT_NO_LS" -> 6
-    [] f = "D_LOCK_GARBAGE" -> 7 [] f = "D_GGLW_PARSE" -> 8 [] f = "D_CAS_SHAPED" -> 9 [] f = "D_NULL_RELOAD" -> 10 [] OTHER -> 11
-NFlags == 11
+    [] f = "D_LOCK_GARBAGE" -> 7 [] f = "D_GGLW_PARSE" -> 8 [] f = "D_CAS_SHAPED" -> 9 [] f = "D_NULL_RELOAD" -> 10 [] f = "D_ERR_CLOSES" -> 11 [] f = "D_UNSUB_TRAIL" -> 12 [] OTHER -> 13
+NFlags == 13
 FlagNames == <<"D_CAS_GHOST", "D_HASH_ZERO", "D_LAZY_HASH", "D_SYS_WILDCARD", "D_PUBLISH_SYS",
-               "D_IMPORT_NO_LS", "D_LOCK_GARBAGE", "D_GGLW_PARSE", "D_CAS_SHAPED", "D_NULL_RELOAD", "D_OTHER">>
+               "D_IMPORT_NO_LS", "D_LOCK_GARBAGE", "D_GGLW_PARSE", "D_CAS_SHAPED", "D_NULL_RELOAD",
+               "D_ERR_CLOSES", "D_UNSUB_TRAIL", "D_OTHER">>
 Flag(f) == f \in Dev /\ TLCSet(FlagIdx(f), TRUE)
 
 INT  == "int"                     \* INTERNAL_CLIENT_ID
@@ -613,10 +614,9 @@ DoDisconnected(S, c) ==
       r7 == BurySeq(r6, gg, c)
       r8 == WillSeq(r7, lw, c)
   IN IF r2.s.down THEN [r2 EXCEPT !.rep = Down]
-     ELSE [r8 EXCEPT !.rep = IF r8.s.down THEN Down ELSE Ok,
-                     \* events for the departing client's own subscriptions are not observable
-                     !.ev = RestrictF(@, {x \in DOMAIN @ : x[1] # c}),
-                     !.ls = RestrictF(@, {x \in DOMAIN @ : x[1] # c})]
+     \* the client count is updated while the departing client's subscriptions still exist: a
+     \* subscription of its own that matches $SYS/clients is still sent that one event
+     ELSE [r8 EXCEPT !.rep = IF r8.s.down THEN Down ELSE Ok]
 
 (***************************************************************************)
 (* Restart with the JSON persistence: flush (Store::export strips $SYS,    *)
